@@ -312,11 +312,31 @@ func (c *Ctx) renderItems(its []bItem) string {
 				continue
 			}
 			out = append(out, it.Kind+":"+fieldNameOfOperand(it.Val))
+		case "bytes":
+			// the bytes of a string ([]byte(s)) with their length prefix are that string's encoding
+			if cv, ok := it.Val.(*ssa.Convert); ok {
+				if b, isB := cv.X.Type().Underlying().(*types.Basic); isB && b.Info()&types.IsString != 0 {
+					out = append(out, "string:"+fieldNameOfOperand(cv.X))
+					continue
+				}
+			}
+			out = append(out, it.Kind+":"+fieldNameOfOperand(it.Val))
 		default:
 			out = append(out, it.Kind+":"+fieldNameOfOperand(it.Val))
 		}
 	}
 	return strings.Join(out, " ")
+}
+
+// fuseDeep: fuseUint16 on a body and on the bodies of its loops and optional parts.
+func (c *Ctx) fuseDeep(its []bItem) []bItem {
+	its = c.fuseUint16(its)
+	for i := range its {
+		if len(its[i].Sub) > 0 {
+			its[i].Sub = c.fuseDeep(its[i].Sub)
+		}
+	}
+	return its
 }
 
 func (c *Ctx) checkBody(rr *RuleRep, rflag *RuleRep, pi packInfo) {
@@ -328,7 +348,7 @@ func (c *Ctx) checkBody(rr *RuleRep, rflag *RuleRep, pi packInfo) {
 	var parts []string
 	var all [][]bItem
 	for _, p := range pi.Parts {
-		its := cc.decompose(p)
+		its := c.fuseDeep(cc.decompose(p))
 		all = append(all, its)
 		parts = append(parts, c.renderItems(its))
 	}
@@ -680,7 +700,9 @@ func (c *Ctx) ruleInverseTables(rr *RuleRep) {
 func (c *Ctx) ruleLengthPrefix(rr *RuleRep) {
 	au := c.Func("appendUint16")
 	if au == nil {
-		rr.Lost("appendUint16", "not found")
+		// no helper for 16-bit values: each is encoded where it is used, and the order of its two bytes is checked there
+		// (a body decomposes into uint16:… only for byte(v>>8), byte(v); R-C05-4 and the length prefixes below)
+		rr.OK("appendUint16", token.NoPos, "no such helper: 16-bit values are encoded in place and checked with the bodies they are part of")
 	} else {
 		cc := c.newChain()
 		okBE := false
@@ -712,10 +734,26 @@ func (c *Ctx) ruleLengthPrefix(rr *RuleRep) {
 				return
 			}
 			bt, ok := cv.Type().Underlying().(*types.Basic)
-			if !ok || bt.Kind() != types.Uint16 {
+			if !ok {
 				return
 			}
-			call, ok := cv.X.(*ssa.Call)
+			src := cv.X
+			switch bt.Kind() {
+			case types.Uint16:
+			case types.Uint8:
+				// the high byte of a two-byte length written out: byte(len(s) >> 8)
+				sh, isSh := src.(*ssa.BinOp)
+				if !isSh || sh.Op != token.SHR {
+					return
+				}
+				if k, isK := constInt(sh.Y); !isK || k != 8 {
+					return
+				}
+				src = sh.X
+			default:
+				return
+			}
+			call, ok := src.(*ssa.Call)
 			if !ok {
 				return
 			}
@@ -775,6 +813,11 @@ func (c *Ctx) ruleLengthPrefix(rr *RuleRep) {
 	for _, name := range []string{"appendBytes", "appendString"} {
 		f := c.Func(name)
 		if f == nil {
+			if name == "appendString" && c.Func("appendBytes") != nil {
+				// strings are handed to appendBytes as []byte(s) by the callers (rendered as string:… in the bodies)
+				rr.OK(name, token.NoPos, "no such helper: strings are encoded by appendBytes([]byte(s))")
+				continue
+			}
 			rr.Lost(name, "not found")
 			continue
 		}
@@ -783,6 +826,26 @@ func (c *Ctx) ruleLengthPrefix(rr *RuleRep) {
 		for _, ret := range returnsOf(f) {
 			its := cc.decompose(ret.Results[0])
 			s := c.renderItems(its)
+			// the prefix written out as two bytes: byte(len(s)>>8), byte(len(s))
+			if name == "appendBytes" && len(its) == 4 && its[1].Kind == "byte" && its[2].Kind == "byte" && its[3].Kind == "raw" && c.Resolve(its[3].Val) == ssa.Value(f.Params[1]) {
+				lenOf := func(v ssa.Value) bool {
+					call, isCall := v.(*ssa.Call)
+					if !isCall {
+						return false
+					}
+					bi, isB := call.Call.Value.(*ssa.Builtin)
+					return isB && bi.Name() == "len" && call.Call.Args[0] == ssa.Value(f.Params[1])
+				}
+				hi, isHi := its[1].Val.(*ssa.Convert)
+				lo, isLo := its[2].Val.(*ssa.Convert)
+				if isHi && isLo && lenOf(lo.X) {
+					if sh, isSh := hi.X.(*ssa.BinOp); isSh && sh.Op == token.SHR && lenOf(sh.X) {
+						if k, isK := constInt(sh.Y); isK && k == 8 {
+							ok = true
+						}
+					}
+				}
+			}
 			if name == "appendBytes" && len(its) == 3 && its[1].Kind == "uint16" && its[2].Kind == "raw" && c.Resolve(its[2].Val) == ssa.Value(f.Params[1]) {
 				if cv, isCv := its[1].Val.(*ssa.Convert); isCv {
 					if call, isCall := cv.X.(*ssa.Call); isCall && call.Call.Args[0] == ssa.Value(f.Params[1]) {
@@ -1294,6 +1357,32 @@ func (c *Ctx) ruleInboundFields(rr *RuleRep) {
 		return
 	}
 	okTopic, okPayload := false, false
+	// the decoded string handed back through a *string parameter: the destination given is the message's Topic, and
+	// unpackString stores into it before every successful return
+	for i, a := range usCall.Call.Args {
+		if _, isT := isFieldAddr(a, "Message", "Topic"); !isT || i >= len(us.Params) {
+			continue
+		}
+		par := us.Params[i]
+		if pt, isP := par.Type().Underlying().(*types.Pointer); !isP || !types.Identical(pt.Elem(), types.Typ[types.String]) {
+			continue
+		}
+		filled := true
+		for _, ret := range returnsOf(us) {
+			if !isNilConst(c.Resolve(c.errResult(ret))) {
+				continue
+			}
+			if !Dominated(us, ret, func(x ssa.Instruction) bool {
+				st, isSt := x.(*ssa.Store)
+				return isSt && st.Addr == ssa.Value(par)
+			}, PathQ{}) {
+				filled = false
+			}
+		}
+		if filled {
+			okTopic = true
+		}
+	}
 	eachInstr(p, func(in ssa.Instruction) {
 		st, ok := in.(*ssa.Store)
 		if !ok {
@@ -1313,6 +1402,11 @@ func (c *Ctx) ruleInboundFields(rr *RuleRep) {
 					return ok && ex.Tuple == ssa.Value(usCall) && ex.Index == resultIndexOf(us, "int")
 				}
 				isNID := func(v ssa.Value) bool {
+					if uu := c.Func("unpackUint16"); uu != nil && resultIndexOf(uu, "int") < 0 {
+						// the identifier decoder reports no count: the two bytes of the identifier as a constant
+						k, isK := constInt(v)
+						return isK && k == 2
+					}
 					ex, ok := v.(*ssa.Extract)
 					if !ok || ex.Index != resultIndexOf(c.Func("unpackUint16"), "int") {
 						return false
@@ -1665,7 +1759,8 @@ func (c *Ctx) literalPackSite(r2, r4 *RuleRep, t string) bool {
 
 // fuseUint16: byte(v>>8), byte(v) for the same 16-bit v is the big-endian encoding of v.
 func (c *Ctx) fuseUint16(its []bItem) []bItem {
-	same := func(a, b ssa.Value) bool {
+	var same func(a, b ssa.Value) bool
+	same = func(a, b ssa.Value) bool {
 		if a == b || c.Resolve(a) == c.Resolve(b) {
 			return true
 		}
@@ -1676,8 +1771,11 @@ func (c *Ctx) fuseUint16(its []bItem) []bItem {
 		}
 		fa, ok1 := la.X.(*ssa.FieldAddr)
 		fb, ok2 := lb.X.(*ssa.FieldAddr)
-		if !ok1 || !ok2 || fa.Field != fb.Field || c.Resolve(fa.X) != c.Resolve(fb.X) || la.Block() != lb.Block() {
+		if !ok1 || !ok2 || fa.Field != fb.Field || la.Block() != lb.Block() {
 			return false
+		}
+		if c.Resolve(fa.X) != c.Resolve(fb.X) && !same(fa.X, fb.X) {
+			return false // (p.Message.ID twice: the inner loads of p.Message are compared the same way)
 		}
 		// no store or call between the two loads
 		i, j := instrIndex(la), instrIndex(lb)
